@@ -621,6 +621,12 @@ def check_long(ctx, case):
         kw = {} if scan["table"] == "public" else {"table": T}
         for i in range(0, len(specs), 4):
             E0["formula"](fa.render(_flat_tree([(sp, Fraction(1)) for sp in specs[i:i + 4]])), **kw)
+    if len(specs) > 128:
+        # every ion of every isotope of that table (more than 14 000 objects): a bounded memo of ions has turned over
+        for el in T:
+            for iso in el:
+                for c in el.ions:
+                    iso.ion[c]
     ctx.case(json.dumps(case, sort_keys=True), nontrivial=nt,
              sample={"first": [str(x[5])[:40] for x in held], "scanned": len(specs), "mode": scan["mode"]},
              cls=["source:long", "long:scan-" + scan["mode"], "long:scan>128" if len(specs) > 128 else "long:scan-short",
